@@ -23,10 +23,17 @@ LWT = 10
 Hang = W.Hang
 
 
-def _scenario(kind, nproc, ev, want):
+def _scenario(kind, nproc, ev, want, replaced=False):
     w = W.World()
     with untraced():
         p = w.make_pool(nproc, lost_worker_timeout=LWT)
+    if replaced:
+        # one worker of the initial set has gone and been replaced before the work is submitted: the replacement is a worker
+        # like any other (its consumed results are credited to it, it gets its sentinel)
+        w.w_exit(p._pool[0], 0)
+        w.tick()
+        if len(p._pool) != nproc:
+            raise Prune()
     nd = ND(ev)
     obs = []
     expect = []
@@ -155,7 +162,7 @@ def h_close_join(ev: List[int]) -> bool:
     post: _
     """
     try:
-        return _scenario(KINDS[PART % 4], 1 + (PART // 4) % 2, ev, False)
+        return _scenario(KINDS[PART % 4], 1 + (PART // 4) % 2, ev, False, (PART // 8) % 2 == 1)
     except Prune:
         return True
 
@@ -166,7 +173,7 @@ def h_close_join_twin(ev: List[int]) -> bool:
     post: _
     """
     try:
-        return _scenario(KINDS[PART % 4], 1 + (PART // 4) % 2, ev, True)
+        return _scenario(KINDS[PART % 4], 1 + (PART // 4) % 2, ev, True, (PART // 8) % 2 == 1)
     except Prune:
         return True
 
@@ -414,10 +421,22 @@ def _midtick(code, want):
     fired = [False]
     holder = {}
 
-    close_on_up = nd.draw(0, 1) == 1 if which == 'close' else False
+    close_where = nd.draw(0, 2) if which == 'close' else 0       # on_process_down / on_process_up / inside Process.start() of a replacement
+    close_on_up = close_where == 1
+    fed_in_hook = [False]
+
+    def in_start(proc):
+        # the user closes the pool while the supervisor thread is inside Process.start() of a replacement; the task-feeder thread
+        # reacts at once: one sentinel per worker it can see
+        if which == 'close' and close_where == 2 and armed[0] and not fired[0]:
+            fired[0] = True
+            holder['p'].close()
+            holder['started_at_close'] = w.started
+            holder['p']._task_handler.body()
+            fed_in_hook[0] = True
 
     def on_down(worker):
-        if which == 'close' and not close_on_up and armed[0] and not fired[0]:
+        if which == 'close' and close_where == 0 and armed[0] and not fired[0]:
             fired[0] = True
             holder['p'].close()               # the user closes the pool while the supervisor is between reaping and replacing
             holder['started_at_close'] = w.started
@@ -482,6 +501,7 @@ def _midtick(code, want):
         w.join_hook = on_join
         armed[0] = True
         started = w.started
+        w.start_hook = in_start
         try:
             w.tick()
         except Hang as exc:
@@ -494,13 +514,14 @@ def _midtick(code, want):
             if w.started != holder['started_at_close']:
                 return fail('C07:worker-started-after-close')
             th = p._task_handler
-            th.body()
+            if not fed_in_hook[0]:
+                th.body()
             th.stop = lambda timeout=None: None
             w.drain_until_sentinel()
             try:
                 p.join()
             except Hang as exc:
-                return fail('C07:J2:join-hangs:after-close-during-supervision')
+                return fail('C07:J2:join-hangs:after-close-during-supervision' + (':close-inside-Process.start' if close_where == 2 else ''))
             if any(x.exitcode is None for x in w.procs):
                 return fail('C07:worker-alive-after-join')
             if obs.observe().outcomes != [(True, ('r', 'a0'))]:
@@ -514,6 +535,7 @@ def _midtick(code, want):
     finally:
         p._outqueue._reader.idle_hook = None
         w.join_hook = None
+        w.start_hook = None
         p._terminate.cancel()
 
 
